@@ -331,6 +331,7 @@ def setup(ctx):
 def plan(tier, seed):
     n = 16 * 25 if tier == "quick" else 16 * 500
     items = [["part", i] for i in range(n)] + [["score", i] for i in range(n // 2)] + [["inverse", i] for i in range(n // 2)]
+    items += [["inverse-part", i] for i in range(n // 4)]
     from workloads import corpora
     items += [["fixture", p] for p in corpora.score_files(limit=16 if tier == "quick" else None)]
     return items
@@ -410,6 +411,52 @@ def run_item(ctx, item):
         ctx.case(["score", item[1], form, unique, sorted(k for k, v in opts.items() if v)], len(set(divs)) > 1, cls="score",
                  sample={"divisions": divs, "lcm": lcm, "form": form, "unique_id_per_part": unique})
         ctx.state(f"score:{form}:{unique}:{lcm not in divs}:{len(parts)}")
+    elif kind == "inverse-part":
+        # the inverse direction fed with the table of a real part: both kinds of time columns, with the time-signature
+        # columns (any meters) or without them (then beats must be quarters: x/4 meters only)
+        rng = ctx.rng("inverse-part", item[1])
+        from partitura.musicanalysis.note_array_to_score import note_array_to_score
+        from workloads import gen_score
+        with_ts = rng.random() < 0.7
+        feats = [f for f in ("chords", "rests", "ties", "ts_changes", "multivoice", "pickup") if rng.random() < 0.6]
+        part, meta = gen_score.make_part(rng, "P1", features=feats, divs=rng.choice([1, 2, 4, 8, 12, 16]),
+                                         meters=None if with_ts else [(4, 4), (3, 4), (2, 4), (5, 4)])
+        ok, na = ctx.try_call(part.note_array, include_time_signature=with_ts)
+        if not ok or len(na) == 0:
+            return
+        q = int(part.quarter_durations()[0][1])
+        ok, rebuilt = ctx.try_call(note_array_to_score, na, return_part=True)
+        crossing = False
+        if ok:
+            ok2, back = ctx.try_call(rebuilt.note_array)
+            if ok2:
+                ctx.check(3)
+                src = sorted((int(r["onset_div"]), int(r["duration_div"]), int(r["pitch"])) for r in na)
+                got = sorted((int(r["onset_div"]), int(r["duration_div"]), int(r["pitch"])) for r in back)
+                w = {"with_ts_columns": with_ts, "divisions": q, "time_signatures": meta["ts"], "rows": [list(map(float, (r["onset_beat"], r["duration_beat"], r["onset_div"], r["duration_div"], r["pitch"]))) for r in na[:12]]}
+                off = got[0][0] - src[0][0] if got else 0
+                if [(g[0] - off, g[1], g[2]) for g in got] != src:
+                    ctx.violation("note_array_to_score-part-table-divs-changed", f"{len(src)} rows in, {len(got)} out; first difference "
+                                  f"{next(((a, b) for a, b in zip(src, got) if a != b), None)}", w)
+                else:
+                    # the rebuilt part has the same divisions per quarter, so its quarter columns agree too
+                    q2 = [int(x[1]) for x in rebuilt.quarter_durations()]
+                    # a row held across a change of the beat unit mixes two beat lengths; the table determines the
+                    # divisions as long as such rows are a minority of the rows with a duration
+                    changes = [(meta["ts"][i][0], meta["ts"][i - 1][1][1], meta["ts"][i][1][1]) for i in range(1, len(meta["ts"]))]
+                    timed = [r for r in na if r["duration_div"] > 0]
+                    mixed = [r for r in timed if len({bt for c, a_, b_ in changes if r["onset_div"] < c < r["onset_div"] + r["duration_div"]
+                                                      for bt in (a_, b_)} | {0}) > 2
+                             or any(r["onset_div"] < c < r["onset_div"] + r["duration_div"] and a_ != b_ for c, a_, b_ in changes)]
+                    crossing = len(mixed) > 0
+                    w["rows_held_across_a_beat_unit_change"] = len(mixed)
+                    if 2 * len(mixed) >= len(timed):
+                        ctx.ambiguous()
+                    elif q2 != [q]:
+                        ctx.violation("note_array_to_score-part-table-quarter-length-changed",
+                                      f"part with {q} divisions per quarter rebuilt with {q2} (time signatures {meta['ts']})", w)
+        ctx.case(["inv-part", item[1], with_ts], len(meta["ts"]) > 1, cls="inverse-part-table" + ("+ts" if with_ts else "") + ("+held-across-beat-unit-change" if crossing else ""),
+                 sample={"with_ts_columns": with_ts, "divisions": q, "time_signatures": meta["ts"][:4], "rows": len(na)})
     elif kind == "inverse":
         rng = ctx.rng("inverse", item[1])
         from partitura.musicanalysis.note_array_to_score import note_array_to_score
